@@ -266,9 +266,25 @@ def _extract_block(block, unit_name, rewrites):
     return cleaned, relfile, anchor
 
 
+def _spec_item(tpl_lines, head):
+    """Text of the template item whose first line starts with `head` (brace matched, whitespace normalised)."""
+    for q, l in enumerate(tpl_lines):
+        if l.strip().startswith(head):
+            return _norm("\n".join(tpl_lines[q:_match_brace(tpl_lines, q) + 1]))
+    return None
+
+
 def build_unit(unit):
     with open(os.path.join(unit["dir"], "unit.rs.tpl")) as f:
         tpl = f.read().split("\n")
+    # definitions shared with another unit (a theorem that connects two units' contracts) must be the same text
+    for same in unit.get("same_text", []):
+        with open(os.path.join(os.path.dirname(unit["dir"]), same["unit"], "unit.rs.tpl")) as f:
+            other = f.read().split("\n")
+        for head in same["items"]:
+            a, b = _spec_item(tpl, head), _spec_item(other, head)
+            if a is None or b is None or a != b:
+                raise Undecided("unit %s: definition %r differs from the one in unit %s" % (unit["name"], head, same["unit"]))
     out = []
     rewrites = []
     extracted = []
@@ -297,7 +313,7 @@ def run_unit(unit, snap=None, use_cache=True):
     text, rewrites, extracted = build_unit(unit)
     key = sha256_bytes((VERUS_VERSION + text).encode())
     cpath = os.path.join(CACHE, "verus-results", key + ".json")
-    wd = os.path.join(CACHE, "verus-work")
+    wd = os.path.join(CACHE, "verus-work", os.environ.get("VERIF_SLOT", "main"))  # one work file per slot: concurrent runs on different trees must not share it
     os.makedirs(wd, exist_ok=True)
     src = os.path.join(wd, unit["name"] + ".rs")
     with open(src, "w") as f:
